@@ -344,11 +344,11 @@ func runChain(r *harness.Run, c chainCase) error {
 	h, byNick := buildRoom(c.Version)
 	opts := map[string]fedgen.Opt{}
 	for nick, f := range c.Fault {
-		if f == "stripped" {
+		if f == "stripped" || f == "bare" {
 			e := byNick[nick]
 			var drop []string
 			for _, a := range e.Auth {
-				if a != h.CreateID {
+				if a != h.CreateID || f == "bare" {
 					drop = append(drop, a)
 				}
 			}
@@ -500,10 +500,10 @@ func runLoad(r *harness.Run, c loadCase) error {
 			switch parts[1] {
 			case "bad-signature":
 				opts[e.ID] = fedgen.Opt{BadSignature: true}
-			case "stripped":
+			case "stripped", "bare":
 				var drop []string
 				for _, a := range e.Auth {
-					if a != h.CreateID {
+					if a != h.CreateID || parts[1] == "bare" {
 						drop = append(drop, a)
 					}
 				}
@@ -541,7 +541,7 @@ func runLoad(r *harness.Run, c loadCase) error {
 		switch f {
 		case "bad-signature":
 			expect[rr.ID] = "SignatureErr"
-		case "stripped":
+		case "stripped", "bare":
 			expect[rr.ID] = "AuthChainErr"
 		case "malformed":
 		default:
@@ -742,13 +742,13 @@ func run(r *harness.Run) {
 		for _, target := range []string{"topic", "carol", "bob", "jr", "pl"} {
 			chains = append(chains, chainCase{v, map[string]string{}, target})
 			for i, n1 := range nicks[:6] {
-				for _, f1 := range []string{"missing", "stripped"} {
+				for _, f1 := range []string{"missing", "stripped", "bare"} {
 					if n1 == target && f1 == "missing" {
 						continue
 					}
 					chains = append(chains, chainCase{v, map[string]string{n1: f1}, target})
 					for _, n2 := range nicks[i+1 : 6] {
-						for _, f2 := range []string{"missing", "stripped"} {
+						for _, f2 := range []string{"missing", "stripped", "bare"} {
 							if n2 == target && f2 == "missing" {
 								continue
 							}
@@ -768,7 +768,7 @@ func run(r *harness.Run) {
 	var loads []loadCase
 	var inputs []string
 	for _, n := range []string{"topic", "carol", "bob", "pl"} {
-		for _, f := range []string{"", ":bad-signature", ":stripped", ":malformed"} {
+		for _, f := range []string{"", ":bad-signature", ":stripped", ":bare", ":malformed"} {
 			inputs = append(inputs, n+f)
 		}
 	}
